@@ -100,14 +100,10 @@ def list_uses(fn, field):
     how: 'call:<method>' (member call on the list), 'arg:<callee>' (passed to a function), 'other'."""
     out = []
     pm = fn.parent_map()
-    for n, o in fn.nodes.items():
-        if o['cls'] != 'MemberExpr':
-            continue
-        d = fn.decl(n)
-        if d['kind'] != 'field' or d['name'] != field:
-            continue
+
+    def classify(start):
         # climb through transparent wrappers to the using node
-        cur = n
+        cur = start
         use = None
         while cur in pm:
             p = pm[cur]
@@ -130,7 +126,29 @@ def list_uses(fn, field):
             use = (p, 'other:' + po['cls'])
             break
         if use is None:
-            use = (n, 'other')
+            use = (start, 'other')
+        return use
+
+    for n, o in fn.nodes.items():
+        if o['cls'] != 'MemberExpr':
+            continue
+        d = fn.decl(n)
+        if d['kind'] != 'field' or d['name'] != field:
+            continue
+        use = classify(n)
+        if use[1] == 'other:DeclStmt':
+            # `List & pending = queueList;` binds a name and reads nothing: the uses of that name are the uses of the list
+            refvar = None
+            for v in fn.nodes[use[0]].get('decls', []):
+                vt = fn.tu.type(v['t'])
+                if vt and vt.get('ref') and v.get('init') and n in ([v['init']] + fn.descendants(v['init'])) and fn.strip_all_casts(v['init']) == n:
+                    refvar = v['id']
+            if refvar is not None:
+                for m, om in fn.nodes.items():
+                    if om['cls'] == 'DeclRefExpr' and (fn.decl(m) or {}).get('id') == refvar:
+                        u2 = classify(m)
+                        out.append({'node': u2[0], 'how': u2[1], 'member': n, 'pos': fn.pos(u2[0])})
+                continue
         out.append({'node': use[0], 'how': use[1], 'member': n, 'pos': fn.pos(use[0])})
     return out
 
